@@ -95,7 +95,6 @@ def check(m, run):
                and n.value.func.attr == 'get' and n.value.args and isinstance(n.value.args[0], ast.Constant) and 'check' in str(n.value.args[0].value)]
         okf = bool(flg) and len(flg[0].value.args) == 2 and isinstance(flg[0].value.args[1], ast.Constant) and flg[0].value.args[1].value is True
         run.ob('GD4.validation-default-on', fi.key, okf, 'validation enabled by default' if okf else 'validation flag does not default to True', site(fi))
-        dk1(run, fi, pts)
         P = Purity(m)
         mu = [x for x in P.summary(fi).mutations if x.root == 'param:' + pts]
         run.ob('PU1.input-not-mutated', fi.key, not mu, 'control polygon is only read' if not mu else 'input polygon mutated at `%s`' % norm(mu[0].node)[:70], site(fi))
@@ -105,7 +104,9 @@ def check(m, run):
     n0 = len(run.obs)
     _sd.el2(m, run)
     el_ok = all(o.ok for o in run.obs[n0:])
-    with run.corroborating(el_ok, 'EL2', rules=('EQ536.sum-range', 'EQ536.binomials', 'EQ536.rows', 'END1.end-points-kept')):
+    with run.corroborating(el_ok, 'EL2', rules=('EQ536.sum-range', 'EQ536.binomials', 'EQ536.rows', 'END1.end-points-kept', 'DK1.accumulator-shape')):
+        for fi_ in (el, rd):
+            dk1(run, fi_, params_of(fi_.node)[1])
         eq536(m, run, el)
         end1(m, run, rd)
     from . import c16 as _c16
